@@ -490,7 +490,8 @@ Theorem conv_dec_widen_exact c u s0 u' s :
   conv c (VDec u s0) = Some (VDec u' s) -> s0 <= s -> (u' * pow10 s0 = u * pow10 s)%Z.
 Proof.
   cbn [conv]. destruct (cty c) as [lo hi|n k|ms|p sc| |]; try discriminate.
-  - cbv zeta. destruct ((lo <=? rescale u s0 0)%Z && (rescale u s0 0 <=? hi)%Z); discriminate.
+  - cbv zeta. destruct ((lo =? 0)%Z && (hi =? 18446744073709551615)%Z && (u <? 0)%Z); [discriminate|].
+    destruct ((lo <=? rescale u s0 0)%Z && (rescale u s0 0 <=? hi)%Z); discriminate.
   - cbv zeta. destruct (fits_dec (rescale u s0 sc) p); [|discriminate]. intros H Hs. inversion H; subst. unfold rescale.
     apply N.leb_le in Hs. rewrite Hs. apply N.leb_le in Hs. unfold pow10.
     replace (Z.of_N s) with (Z.of_N (s - s0) + Z.of_N s0)%Z by lia.
@@ -510,7 +511,8 @@ Theorem conv_dec_narrow_nearest c u s0 u' s :
   conv c (VDec u s0) = Some (VDec u' s) -> s < s0 -> (Z.abs (u' * pow10 (s0 - s) - u) * 2 <= pow10 (s0 - s))%Z.
 Proof.
   cbn [conv]. destruct (cty c) as [lo hi|n k|ms|p sc| |]; try discriminate.
-  - cbv zeta. destruct ((lo <=? rescale u s0 0)%Z && (rescale u s0 0 <=? hi)%Z); discriminate.
+  - cbv zeta. destruct ((lo =? 0)%Z && (hi =? 18446744073709551615)%Z && (u <? 0)%Z); [discriminate|].
+    destruct ((lo <=? rescale u s0 0)%Z && (rescale u s0 0 <=? hi)%Z); discriminate.
   - cbv zeta. destruct (fits_dec (rescale u s0 sc) p); [|discriminate]. intros H Hs. inversion H; subst. unfold rescale.
     assert (E : s0 <=? s = false) by (apply N.leb_gt; exact Hs). rewrite E.
     apply rdiv_nearest. apply pow10_pos.
